@@ -15,10 +15,13 @@ direct oracle:   an independent reference search written from the documentation 
                  searched object before / after.
 """
 import ast
+import base64
 import copy
 import itertools
 import logging
+import pickle
 import re
+from collections import namedtuple
 
 from harness import core
 from harness import values as V
@@ -39,11 +42,193 @@ ASSUMPTIONS = ["floats are half-integers of small magnitude (repr without expone
                "the item is an atom (None, bool, int, float, str, bytes); regular expressions given as items are valid",
                "the searched object is tree shaped (no container reachable from itself)"]
 
+# ---------------------------------------------------------------------------
+# class instances, named tuples, objects whose attributes cannot be read (Coq: XObj / XNamed / XOpaque)
+# (no non-dunder helper methods: dir() would list them and the search would report them)
+# ---------------------------------------------------------------------------
+
+def _inst_repr(self):
+    return "%s(**%r)" % (type(self).__name__, _inst_state(self))
+
+
+def _inst_state(x):
+    if hasattr(type(x), "__slots__"):
+        return {n: getattr(x, n) for n in type(x).__slots__ if hasattr(x, n)}
+    return dict(vars(x))
+
+
+class A:
+    """a plain instance: its attributes live in __dict__"""
+    def __init__(self, **kw):
+        self.__dict__.update(kw)
+    __repr__ = _inst_repr
+
+
+class B:
+    """a second class (for exclude_types)"""
+    def __init__(self, **kw):
+        self.__dict__.update(kw)
+    __repr__ = _inst_repr
+
+
+class M:
+    """an instance whose class has a class attribute and a method: dir() lists both"""
+    cv = "cv1"
+
+    def ameth(self):
+        return None
+
+    def __init__(self, **kw):
+        self.__dict__.update(kw)
+    __repr__ = _inst_repr
+
+
+class S:
+    """__slots__, no __dict__; an unset slot makes getattr raise AttributeError: the object is `unprocessed`"""
+    __slots__ = ("b", "a", "c")
+
+    def __init__(self, **kw):
+        for k, v in kw.items():
+            setattr(self, k, v)
+    __repr__ = _inst_repr
+
+
+class E:
+    """a property that raises AttributeError: `unprocessed`"""
+    ok = "val"
+
+    @property
+    def bad(self):
+        raise AttributeError("bad")
+
+    def __init__(self, **kw):
+        self.__dict__.update(kw)
+    __repr__ = _inst_repr
+
+
+P = namedtuple("P", "x y")
+R = namedtuple("R", "name val more")
+CLASSES = {"A": A, "B": B, "M": M, "S": S, "E": E}
+NAMED = {"P": P, "R": R}
+CLASS_ATTRS = {M: ("cv", "ameth"), E: ("ok", "bad")}
+ATTR_NAMES = ["a", "b", "c", "x", "ab", "A", "k1", "name", "val", "_p", "__q", "a1", "none", "root", "__d__", "ſa", "İb"]
+
+
+def is_named(v):
+    return isinstance(v, tuple) and hasattr(type(v), "_fields")
+
+
+def is_opaque(v):
+    return isinstance(v, E) or (isinstance(v, S) and any(not hasattr(v, n) for n in S.__slots__))
+
+
+def is_inst(v):
+    return isinstance(v, (A, B, M, S)) and not is_opaque(v)
+
+
+def is_method(v):
+    return callable(v) and not isinstance(v, type)
+
+
+def dunder(n):
+    return n.startswith("__") and n.endswith("__")
+
+
+def attr_items(v):
+    """[(name, value)] the search goes through, written from the class definitions above (not with dir()):
+    the non-dunder names of the instance and of its class in sorted order; the fields of a named tuple"""
+    if is_named(v):
+        return [(f, getattr(v, f)) for f in v._fields]
+    if is_method(v):
+        return []
+    names = set(_inst_state(v)) | set(CLASS_ATTRS.get(type(v), ()))
+    return [(n, getattr(v, n)) for n in sorted(names) if not dunder(n)]
+
+
+def has_attrs(v):
+    return is_named(v) or is_inst(v) or is_method(v)
+
+
+def is_seq(v):
+    return isinstance(v, (list, tuple, set, frozenset)) and not is_named(v)
+
+
+def xcoq(v):
+    """Coq term of type xvalue"""
+    if is_opaque(v):
+        return "(XOpaque %s)" % core.coq_pystr(type(v).__name__)
+    if has_attrs(v):
+        return "(%s %s [%s])" % ("XNamed" if is_named(v) else "XObj", core.coq_pystr("method" if is_method(v) else type(v).__name__),
+                                 "; ".join("(%s, %s)" % (core.coq_pystr(n), xcoq(x)) for n, x in attr_items(v)))
+    if isinstance(v, list):
+        return "(XList [%s])" % "; ".join(xcoq(x) for x in v)
+    if isinstance(v, tuple):
+        return "(XTuple [%s])" % "; ".join(xcoq(x) for x in v)
+    if isinstance(v, dict):
+        return "(XDict [%s])" % "; ".join("(%s, %s)" % (V.atom_to_coq(k), xcoq(x)) for k, x in v.items())
+    if isinstance(v, frozenset):
+        return "(XFrozen [%s])" % "; ".join(V.atom_to_coq(x) for x in v)
+    if isinstance(v, set):
+        return "(XSet [%s])" % "; ".join(V.atom_to_coq(x) for x in v)
+    return "(XAtom %s)" % V.atom_to_coq(v)
+
+
+def xcanon(v, sort=False):
+    """mirrors Coq's sx_xvalue (sort=True: dict / set order forgotten, for comparisons)"""
+    if v is METHOD or is_method(v):
+        return ["O", "method", []]
+    if is_opaque(v):
+        return ["U", type(v).__name__] + ([sorted(([n, xcanon(x, True)] for n, x in _inst_state(v).items()), key=repr)] if sort else [])
+    if has_attrs(v):
+        return ["N" if is_named(v) else "O", type(v).__name__, [[n, xcanon(x, sort)] for n, x in attr_items(v)]]
+    if isinstance(v, list):
+        return ["L", [xcanon(x, sort) for x in v]]
+    if isinstance(v, tuple):
+        return ["T", [xcanon(x, sort) for x in v]]
+    if isinstance(v, dict):
+        items = [[V.canon_atom(k), xcanon(x, sort)] for k, x in v.items()]
+        return ["D", sorted(items, key=repr) if sort else items]
+    if isinstance(v, (set, frozenset)):
+        items = [V.canon_atom(x) for x in v]
+        return ["F" if isinstance(v, frozenset) else "S", sorted(items, key=repr) if sort else core.sx_sorted(items)]
+    return V.canon_atom(v)
+
+
+def xstate(v):
+    """everything the object holds (unreadable objects and dunder attributes included): the `object not modified` check"""
+    if is_method(v):
+        return "method"
+    if isinstance(v, (A, B, M, S, E)):
+        return [type(v).__name__, sorted(([n, xstate(x)] for n, x in _inst_state(v).items()), key=repr)]
+    if is_named(v):
+        return ["N", type(v).__name__, [xstate(x) for x in v]]
+    if isinstance(v, (list, tuple)):
+        return [type(v).__name__, [xstate(x) for x in v]]
+    if isinstance(v, dict):
+        return ["D", [[V.canon_atom(k), xstate(x)] for k, x in v.items()]]
+    return V.canon_sorted(v)
+
+
+def xeq(a, b):
+    return xcanon(a, True) == xcanon(b, True)
+
+
+def has_objects(v):
+    return any(has_attrs(w) or is_opaque(w) for _, w, _ in locations(v))
+
+
 NUMS = (bool, int, float)
 TYPES = {"str": str, "int": int, "float": float, "bool": bool, "list": list, "tuple": tuple, "dict": dict,
-         "set": set, "frozenset": frozenset, "NoneType": type(None), "bytes": bytes}
+         "set": set, "frozenset": frozenset, "NoneType": type(None), "bytes": bytes,
+         "A": A, "B": B, "M": M, "S": S, "E": E, "P": P, "R": R}
 COQ_TY = {"str": "TStr", "int": "TInt", "float": "TFloat", "bool": "TBool", "list": "TList", "tuple": "TTuple",
           "dict": "TDict", "set": "TSet", "frozenset": "TFrozen", "NoneType": "TNone", "bytes": "TBytes"}
+
+
+def coq_xty(name):
+    if name in COQ_TY:
+        return "(TyB %s)" % COQ_TY[name]
+    return "(%s %s)" % ("TyNamed" if name in NAMED else "TyObj", core.coq_pystr(name))
 DEFECTS = ["K16", "K16b", "K16c", "K16e", "K16f", "K16h"]      # switches of the reference search
 FINDINGS = DEFECTS + ["K16g"]
 CONTAINERS = (list, tuple, dict, set, frozenset)
@@ -62,16 +247,12 @@ def attr_names(x):
 
 
 def cv(v):
-    """canonical value; builtin methods (K16f) become the marker 'method'"""
-    if v is METHOD or callable(v):
-        return "method"
-    return V.canon(v)
+    """canonical value; bound / builtin methods become the attribute-less instance of class 'method'"""
+    return xcanon(v)
 
 
 def cv_eq(a, b):
-    if a is METHOD or callable(a) or b is METHOD or callable(b):
-        return (a is METHOD or callable(a)) and (b is METHOD or callable(b))
-    return V.typed_eq(a, b)
+    return xeq(a, b)
 
 
 def ascii_lower(s):
@@ -88,6 +269,8 @@ def step_text(s):
     kind, x = s
     if kind == "i":
         return "[%d]" % x
+    if kind == "a":
+        return ".%s" % x
     if isinstance(x, (str, bytes)):
         return "['%s']" % (x,)
     return "[%s]" % (x,)
@@ -98,14 +281,20 @@ def path_text(steps):
 
 
 def locations(obj):
-    """[(steps, value, chain)] for every location, root included; chain is the list of
+    """steps: ('k', key) dictionary entry, ('i', n) position, ('a', name) attribute of an instance / field of a named tuple.
+    [(steps, value, chain)] for every location, root included; chain is the list of
     (steps, value) of the location's ancestors followed by the location itself."""
     out = []
 
     def walk(v, steps, chain):
         chain = chain + [(steps, v)]
         out.append((steps, v, chain))
-        if isinstance(v, dict):
+        if is_opaque(v):
+            return                       # nothing is a location below an object whose attributes cannot be read
+        if has_attrs(v):
+            for n, x in attr_items(v):
+                walk(x, steps + (("a", n),), chain)
+        elif isinstance(v, dict):
             for k, x in v.items():
                 walk(x, steps + (("k", k),), chain)
         elif isinstance(v, (list, tuple, set, frozenset)):
@@ -124,7 +313,7 @@ class RefRaise(Exception):
 
 
 def ref_search(obj, item, kw, emulate=()):
-    """Returns ('raise',) or ('ok', {path text: value} matched_paths, {path text: value} matched_values)."""
+    """Returns ('raise',) or ('ok', {path text: value} matched_paths, {path text: value} matched_values, [path text] unprocessed)."""
     E = set(emulate)
     cs_arg = kw.get("case_sensitive", False)
     ms = kw.get("match_string", False)
@@ -188,9 +377,10 @@ def ref_search(obj, item, kw, emulate=()):
             return False
         if isinstance(v, CONTAINERS):
             # a container matches when it equals a container item (documented nowhere in detail;
-            # as written only items of lists / tuples / sets are compared: K16h, handled by the caller)
+            # as written only items of lists / tuples / sets are compared: K16h, handled by the caller).
+            # A named tuple is a tuple: it equals the tuple of its fields.
             return isinstance(item, CONTAINERS) and v == item
-        return False
+        return False                       # an instance of a class (no __eq__: identity) matches no item of the universe
 
     item_str = str(needle) if needle is not None else str(item)
 
@@ -218,8 +408,8 @@ def ref_search(obj, item, kw, emulate=()):
     if "K16" in E and not rx:
         # as written: the searched item itself is tested against exclude_types
         if type_excluded(needle if needle is not None else item):
-            return ("ok", {}, {})
-    paths, vals = {}, {}
+            return ("ok", {}, {}, [])
+    paths, vals, unproc = {}, {}, []
 
     def shortcut_hit(steps, w):
         """as written: an item of a list / tuple / set that equals a container item is reported and not descended into"""
@@ -230,15 +420,17 @@ def ref_search(obj, item, kw, emulate=()):
                 continue
             if "K16h" in E and any(shortcut_hit(s, w) for s, w in chain[:-1]):
                 continue
-            if steps and steps[-1][0] == "k":
+            if steps and steps[-1][0] in ("k", "a"):
                 hidden = own_type_excluded(steps, v) or (path_excluded(steps) and "K16b" not in E)
                 hidden = hidden or ("K16h" in E and len(chain) >= 2 and shortcut_hit(*chain[-2]))
                 if not hidden and text_matches(path_text(steps)):
                     paths[path_text(steps)] = v
             if link_excluded(steps, v):
                 continue
-            if value_matches(v) and not ("K16h" in E and isinstance(v, CONTAINERS) and not shortcut_hit(steps, v)):
-                vals[path_text(steps)] = v
+            if value_matches(v) and not ("K16h" in E and isinstance(v, CONTAINERS) and not is_named(v) and not shortcut_hit(steps, v)):
+                vals[path_text(steps)] = v     # (a named tuple is compared with the item wherever it sits: __search_obj)
+            if is_opaque(v) and not ("K16h" in E and shortcut_hit(steps, v)):
+                unproc.append(path_text(steps))
             if "K16f" in E and (item is None or isinstance(item, CONTAINERS)) and isinstance(v, (str, bytes)):
                 # as written: a str is searched as a custom object when the item is None
                 for n in attr_names(v):
@@ -247,7 +439,7 @@ def ref_search(obj, item, kw, emulate=()):
                         paths[t] = METHOD
     except RefRaise:
         return ("raise",)
-    return ("ok", paths, vals)
+    return ("ok", paths, vals, unproc)
 
 
 # ---------------------------------------------------------------------------
@@ -262,7 +454,8 @@ def run_impl(obj, item, kw):
 
 
 def run_call(call):
-    """Run one search entry point (DeepSearch(...) or obj | grep_instance) and canonicalise its outcome."""
+    """Run one search entry point (DeepSearch(...) or obj | grep_instance) and canonicalise its outcome:
+    ('raise', cls) | ('crash', text) | ('ok', matched_paths, matched_values, other keys, unprocessed)."""
     logging.disable(logging.CRITICAL)
     try:
         ds = call()
@@ -277,19 +470,33 @@ def run_call(call):
             out.append([(k, v) for k, v in d.items()])
         else:
             out.append([(k, None) for k in d])
-    other = sorted(k for k in ds.keys() if k not in ("matched_paths", "matched_values"))
-    return ("ok", out[0], out[1], other)
+    other = sorted(k for k in ds.keys() if k not in ("matched_paths", "matched_values", "unprocessed"))
+    unproc = ds.get("unprocessed", [])
+    if not isinstance(unproc, list) or ("unprocessed" in ds and not unproc):
+        other.append("unprocessed:%r" % (unproc,))       # an empty / non-list entry must have been removed
+    return ("ok", out[0], out[1], other, list(unproc))
+
+
+SHAPES = {"list": list, "tuple": tuple, "set": set, "frozenset": frozenset}
 
 
 def kwargs_of(cfg):
+    """The keyword arguments; cfg['shape'] picks one of the accepted shapes of the exclusion arguments: list (the
+    documented one) / tuple / set / frozenset for exclude_paths and exclude_types, and for exclude_regex_paths a list or
+    tuple whose first pattern is pre-compiled ('compiled': re.compile returns a compiled pattern unchanged)."""
+    shape = cfg.get("shape", "list")
+    conv = SHAPES.get(shape, list)
     kw = {"verbose_level": cfg["verbose_level"], "case_sensitive": cfg["case_sensitive"], "match_string": cfg["match_string"],
           "use_regexp": cfg["use_regexp"], "strict_checking": cfg["strict_checking"]}
     if cfg["exclude_paths"]:
-        kw["exclude_paths"] = list(cfg["exclude_paths"])
+        kw["exclude_paths"] = conv(cfg["exclude_paths"])
     if cfg["exclude_regex_paths"]:
-        kw["exclude_regex_paths"] = list(cfg["exclude_regex_paths"])
+        pats = list(cfg["exclude_regex_paths"])
+        if shape == "compiled":
+            pats[0] = re.compile(pats[0])
+        kw["exclude_regex_paths"] = tuple(pats) if shape in ("tuple", "compiled") else pats
     if cfg["exclude_types"]:
-        kw["exclude_types"] = [TYPES[t] for t in cfg["exclude_types"]]
+        kw["exclude_types"] = conv([TYPES[t] for t in cfg["exclude_types"]])
     return kw
 
 
@@ -299,6 +506,10 @@ def kwargs_of(cfg):
 
 STRS = ["a", "b", "ab", "abc", "A", "aB", "Abc", "ABC", "x y", "1", "10", "1.5", "2", "k1", "none", "None", "True", "true",
         "root", "", "xa", "b1", "0.5", "-1", "a.c", "éa", "a\U0001d1c0", "a'b", 'a"b', "a]b[", "x.y z"]
+# text on which str.lower() is not the ASCII lower-casing, and on which lower() / casefold() / upper().lower() differ:
+# sharp s, final sigma (context dependent), long s, ligatures, dotted capital I (lower() has two code points), n-apostrophe,
+# Cyrillic / accented capitals (lower() == casefold(), non-ASCII), titlecase digraph
+UNI = ["Straße", "ΟΔΟΣ", "ſa", "ﬁx", "İb", "ÉA", "aΣ", "Σ", "ŉ", "Дa", "ǅ", "ß", "ςa", "AΣ b"]
 BYTES = [b"a", b"ab", b"A", b"", b"1"]
 PATTERNS = ["a.", "^a", "b$", "[0-9]+", "\\d", ".*", "A|b", "\\S", "\\S+", "[A-Z]", "a?b", "\\[1\\]", "'a'", "oo", "\\W", "\\.5$", "^1$", "(a|1)+", "\\Bb"]
 EXCL_RX = ["\\[1\\]", "root\\['a'\\]", "\\[\\d+\\]$", "'b'", "^root\\[0\\]", "\\['?k", "None", "\\]\\["]
@@ -314,6 +525,8 @@ def gen_leaf(rng, with_bytes):
         return rng.choice([0.5, 1.5, 1.0, 2.0, -0.5, 10.0, 0.0, 2.5])
     if with_bytes and r < 0.6:
         return rng.choice(BYTES)
+    if r > 0.93:
+        return rng.choice(UNI)
     return rng.choice(STRS)
 
 
@@ -322,33 +535,106 @@ def gen_keys(rng, n, with_bytes):
     for _ in range(4 * n):
         if len(keys) >= n:
             break
-        k = gen_leaf(rng, with_bytes) if rng.random() < 0.45 else rng.choice(STRS)
+        k = gen_leaf(rng, with_bytes) if rng.random() < 0.45 else rng.choice(STRS if rng.random() < 0.9 else UNI)
         if all(not (k == q) for q in keys):
             keys.append(k)
     return keys
 
 
-def gen_obj(rng, depth, width, with_bytes):
+def gen_obj(rng, depth, width, with_bytes, with_objs=False):
+    """with_objs: instances (__dict__ / __slots__ / class attributes and methods), named tuples and objects whose
+    attributes cannot be read (an unset slot, a property that raises) occur at every level; 'named': named tuples only"""
     if depth <= 0 or rng.random() < 0.2:
         return gen_leaf(rng, with_bytes)
-    k = rng.choice("LLTDDDSF")
+    sub = lambda: gen_obj(rng, depth - 1, width, with_bytes, with_objs)     # noqa: E731
+    k = rng.choice("LLTDDDSF" + ("NN" if with_objs == "named" else "OOOONNU" if with_objs else ""))
     n = rng.randint(0, width)
     if k == "L":
-        return [gen_obj(rng, depth - 1, width, with_bytes) for _ in range(n)]
+        return [sub() for _ in range(n)]
     if k == "T":
-        return tuple(gen_obj(rng, depth - 1, width, with_bytes) for _ in range(n))
+        return tuple(sub() for _ in range(n))
     if k == "D":
-        return {q: gen_obj(rng, depth - 1, width, with_bytes) for q in gen_keys(rng, n, with_bytes)}
+        return {q: sub() for q in gen_keys(rng, n, with_bytes)}
+    if k == "O":
+        cls = rng.choice([A, A, A, B, M, M, S])
+        if cls is S:
+            return S(**{a: sub() for a in S.__slots__})
+        return cls(**{a: sub() for a in rng.sample(ATTR_NAMES, min(n, len(ATTR_NAMES)))})
+    if k == "N":
+        return P(sub(), sub()) if rng.random() < 0.6 else R(sub(), sub(), sub())
+    if k == "U":
+        if rng.random() < 0.5:
+            return S(**{a: sub() for a in rng.sample(S.__slots__, rng.randint(0, 2))})      # an unset slot
+        return E(**{a: sub() for a in rng.sample(ATTR_NAMES, min(n, 2))})
     ks = gen_keys(rng, n, with_bytes)
     return set(ks) if k == "S" else frozenset(ks)
 
 
+def share_x(rng, obj):
+    """A copy of obj in which ONE container (list / dict / instance) occurs, as the same object, at a second position
+    (not below or above the first); (copy, False) when there is no such pair.  The search must treat it as the tree."""
+    obj = copy.deepcopy(obj)
+    slots = []
+
+    def walk(v, setter, steps):
+        if isinstance(v, (list, dict)) or is_inst(v) or is_opaque(v):
+            slots.append((v, setter, steps))
+        if is_method(v):
+            return
+        if isinstance(v, (A, B, M, S, E)):
+            for a, x in _inst_state(v).items():
+                walk(x, (lambda new, v=v, a=a: setattr(v, a, new)), steps + (a,))
+        elif isinstance(v, dict):
+            for q, x in v.items():
+                walk(x, (lambda new, v=v, q=q: v.__setitem__(q, new)), steps + (q,))
+        elif isinstance(v, list):
+            for i, x in enumerate(v):
+                walk(x, (lambda new, v=v, i=i: v.__setitem__(i, new)), steps + (i,))
+        elif isinstance(v, tuple):
+            for i, x in enumerate(v):
+                walk(x, None, steps + (i,))
+    walk(obj, None, ())
+    rng.shuffle(slots)
+    for va, _, pa in slots:           # replace a container of the same type elsewhere
+        for vb, setb, pb in slots:
+            if setb is None or va is vb or type(va) is not type(vb) or pa == pb[:len(pa)] or pb == pa[:len(pb)]:
+                continue
+            setb(va)
+            return obj, True
+    for va, _, pa in slots:           # or add it to a list / dict / instance that is not inside it
+        for host, _, ph in slots:
+            if host is va or ph[:len(pa)] == pa or is_opaque(host) or isinstance(host, S):
+                continue
+            if isinstance(host, list):
+                host.insert(rng.randint(0, len(host)), va)
+            elif isinstance(host, dict):
+                host["sh"] = va
+            else:
+                setattr(host, "sh", va)
+            return obj, True
+    return obj, False
+
+
+def is_atom(v):
+    return v is None or isinstance(v, (bool, int, float, str, bytes))
+
+
+def is_plain(v):
+    """a value of the shared universe (no instance / named tuple / method inside)"""
+    if isinstance(v, dict):
+        return all(is_plain(x) for x in v.values())
+    if isinstance(v, (list, tuple)):
+        return not is_named(v) and all(is_plain(x) for x in v)
+    return is_atom(v) or isinstance(v, (set, frozenset))
+
+
 def atoms_of(obj):
+    """the atoms at the locations of obj; the dictionary keys and attribute / field names"""
     leaves, keys = [], []
     for steps, v, _ in locations(obj):
-        if not isinstance(v, (dict, list, tuple, set, frozenset)):
+        if is_atom(v):
             leaves.append(v)
-        if steps and steps[-1][0] == "k":
+        if steps and steps[-1][0] in ("k", "a"):
             keys.append(steps[-1][1])
     return leaves, keys
 
@@ -377,9 +663,10 @@ def gen_item(rng, obj, locs, use_regexp):
         if r < 0.53:
             return rng.choice([b"a", b"1", b"."])
         return rng.choice(PATTERNS)
-    conts = [v for _, v, _ in locs[1:] if isinstance(v, CONTAINERS)]
-    if r < 0.14 and conts:       # a container item: a sub-container of the object, a == variant of it, or an absent one
-        v = copy.deepcopy(rng.choice(conts))
+    conts = [tuple(v) if is_named(v) else v for _, v, _ in locs[1:] if isinstance(v, CONTAINERS)]
+    conts = [v for v in conts if is_plain(v)]
+    if r < 0.14 and conts:       # a container item: a sub-container of the object (a named tuple as the tuple of its fields),
+        v = copy.deepcopy(rng.choice(conts))    # a == variant of it, or an absent one
         q = rng.random()
         if q < 0.2 and isinstance(v, list) and v:
             v = [float(x) if isinstance(x, int) and not isinstance(x, bool) else x for x in v]
@@ -409,6 +696,8 @@ def gen_item(rng, obj, locs, use_regexp):
         return rng.choice(BYTES)
     if r < 0.9:
         return rng.choice([None, True, False, 1, 0, 1.0, 2, 0.5, 1.5, 10])
+    if r < 0.92:
+        return rng.choice(UNI)
     return rng.choice(STRS)
 
 
@@ -426,15 +715,15 @@ def gen_cfg(rng, locs):
         cfg["exclude_regex_paths"] = [rng.choice(EXCL_RX)]
     if rng.random() < 0.3:
         cfg["exclude_types"] = sorted(set(rng.choice(sorted(TYPES)) for _ in range(rng.randint(1, 2))))
+    if cfg["exclude_paths"] or cfg["exclude_regex_paths"] or cfg["exclude_types"]:
+        cfg["shape"] = rng.choice(["list", "list", "tuple", "set", "frozenset", "compiled"])
     return cfg
 
 
-def lower_ok(obj, item):
+def non_ascii_lower(obj, item):
+    """some str of the case is lower-cased by Python otherwise than by the ASCII rule (the model gets Python's answer as an oracle table)"""
     leaves, keys = atoms_of(obj)
-    for x in leaves + keys + [item]:
-        if isinstance(x, str) and x.lower() != ascii_lower(x):
-            return False
-    return True
+    return any(isinstance(x, str) and x.lower() != ascii_lower(x) for x in leaves + keys + [item])
 
 
 # ---------------------------------------------------------------------------
@@ -465,6 +754,14 @@ def model_case(obj, item, cfg, locs):
     if isinstance(item, bytes):
         bs.update([item, item.lower()])
     b_tbl = "[" + "; ".join("(%s, %s)" % (core.coq_pystr(b), core.coq_pystr(str(b))) for b in sorted(bs)) + "]"
+    # str.lower(): every str the search lower-cases (the item, the str leaves, the path texts) on which Python's answer is
+    # not the ASCII one
+    lows = {}
+    if folding and isinstance(item, str):
+        for x in [item] + [x for x in leaves if isinstance(x, str)] + texts:
+            if x.lower() != ascii_lower(x):
+                lows[x] = x.lower()
+    l_tbl = "[" + "; ".join("(%s, %s)" % (core.coq_pystr(k), core.coq_pystr(lows[k])) for k in sorted(lows)) + "]"
     # compiled item
     re_true, re_text = [], ""
     eff = effective_item(item, cfg)
@@ -487,12 +784,12 @@ def model_case(obj, item, cfg, locs):
     c = "(mkConfig %s %s %s %s [%s] [%s])" % (
         core.coq_bool(cfg["case_sensitive"]), core.coq_bool(cfg["match_string"]), core.coq_bool(cfg["use_regexp"]),
         core.coq_bool(cfg["strict_checking"]), "; ".join(core.coq_pystr(p) for p in cfg["exclude_paths"]),
-        "; ".join(COQ_TY[t] for t in cfg["exclude_types"]))
+        "; ".join(coq_xty(t) for t in cfg["exclude_types"]))
     if isinstance(item, CONTAINERS):
         re_text = str(item)
-    return "run_search %s %s %s %s %s %s str_attrs_ bytes_attrs_ %s %s" % (
-        core.coq_bool(cfg["verbose_level"] >= 2), c, coq_tbl_bool(re_true), coq_tbl_bool(ex_true), b_tbl,
-        core.coq_pystr(re_text), V.to_coq(item), V.to_coq(obj))
+    return "run_search %s %s %s %s %s %s %s str_attrs_ bytes_attrs_ %s %s" % (
+        core.coq_bool(cfg["verbose_level"] >= 2), c, coq_tbl_bool(re_true), coq_tbl_bool(ex_true), b_tbl, l_tbl,
+        core.coq_pystr(re_text), V.to_coq(item), xcoq(obj))
 
 
 def expected_of(res, verbose2):
@@ -501,8 +798,8 @@ def expected_of(res, verbose2):
     if res[3]:
         return "other-keys:" + ",".join(res[3])
     if verbose2:
-        return ["ok", [[k, cv(v)] for k, v in res[1]], [[k, cv(v)] for k, v in res[2]]]
-    return ["ok", [k for k, _ in res[1]], [k for k, _ in res[2]]]
+        return ["ok", [[k, cv(v)] for k, v in res[1]], [[k, cv(v)] for k, v in res[2]], list(res[4])]
+    return ["ok", [k for k, _ in res[1]], [k for k, _ in res[2]], list(res[4])]
 
 
 # ---------------------------------------------------------------------------
@@ -515,6 +812,9 @@ def tame(steps):
     character: parser finding K6 of C09, not a matter of DeepSearch)."""
     out = "tame"
     for kind, x in steps:
+        if kind == "a" and (not x.isidentifier() or x.startswith("__")):
+            return "attr"               # an attribute name that is no identifier (set through __dict__) has no path syntax;
+                                        # path.py drops every element that starts with '__' (extract(obj, 'root.__q') is obj)
         if kind != "k":
             continue
         if isinstance(x, bytes) or (isinstance(x, str) and "'" in x):
@@ -548,6 +848,8 @@ def compare(ref, res, verbose2):
                 if not cv_eq(v, rd[k]):
                     msgs.append("%s[%s] is %r, the object holds %r there" % (name, k, v, rd[k]))
                     break
+    if sorted(ref[3]) != sorted(res[4]):
+        msgs.append("unprocessed is %r, the objects whose attributes cannot be read are at %r" % (res[4], ref[3]))
     return "; ".join(msgs) if msgs else None
 
 
@@ -567,7 +869,21 @@ def case_dict(obj, item, cfg, what=None, res=None):
     d = {"obj": repr(obj), "item": repr(item), "options": cfg}
     if what:
         d["observed"] = what
+    try:            # sharing of sub-objects / instances: the replay rebuilds the very same object graph
+        if pickle.dumps(obj) != pickle.dumps(_eval(repr(obj))):
+            d["pickle"] = base64.b64encode(pickle.dumps(obj)).decode("ascii")
+    except Exception:
+        d["pickle"] = base64.b64encode(pickle.dumps(obj)).decode("ascii")
     return d
+
+
+def report(ctx, c, what):
+    """ctx.fail, except that inside an extension stream (objects outside the property's stated domain) a failure that is
+    fully explained by a known finding is only counted: the extension notes are for what is new there"""
+    if getattr(ctx, "_ext", None) and c.get("explained_by"):
+        ctx.count("extension_known_finding:" + c["explained_by"][0])
+        return
+    ctx.fail(c, what)
 
 
 def oracle(ctx, obj, item, cfg, res, locs):
@@ -581,7 +897,7 @@ def oracle(ctx, obj, item, cfg, res, locs):
         ok = False
         c = case_dict(obj, item, cfg, diff)
         c["explained_by"] = explain(obj, item, kw, res, verbose2)
-        ctx.fail(c, "DeepSearch(%s, %s, %s): %s" % (c["obj"], c["item"], fmt_kw(cfg), diff))
+        report(ctx, c, "DeepSearch(%s, %s, %s): %s" % (c["obj"], c["item"], fmt_kw(cfg), diff))
     if res[0] == "ok":
         # every reported path extracts the reported value from the object
         from deepdiff import extract
@@ -594,11 +910,11 @@ def oracle(ctx, obj, item, cfg, res, locs):
                 if not cands:        # not a location: already reported by the comparison with the reference
                     continue
                 kind = tame(cands[0][0])
-                if len(cands) > 1 or kind == "c09":
+                if len(cands) > 1 or kind in ("c09", "attr"):
                     ctx.count("extract:skipped_ambiguous_text_or_C09_key")
                     continue
                 steps, v = cands[0]
-                if verbose2 and not V.typed_eq(val, v):
+                if verbose2 and not xeq(val, v):
                     ok = False
                     ctx.fail(case_dict(obj, item, cfg, "%s[%s] = %r but the object holds %r" % (name, text, val, v)),
                              "DeepSearch reports a value that is not at the reported path")
@@ -607,7 +923,7 @@ def oracle(ctx, obj, item, cfg, res, locs):
                     continue
                 try:
                     got = extract(obj, text)
-                    good = V.typed_eq(got, v)
+                    good = xeq(got, v)
                 except Exception as e:
                     got, good = "%s: %s" % (type(e).__name__, e), False
                 ctx.count("extract:checked_" + kind)
@@ -615,7 +931,7 @@ def oracle(ctx, obj, item, cfg, res, locs):
                     ok = False
                     c = case_dict(obj, item, cfg, "extract(obj, %r) gives %r, reported/held value %r" % (text, got, v))
                     c["explained_by"] = ["K16g"] if kind == "k16g" else []
-                    ctx.fail(c, "extract() on the reported path %s does not give the reported value" % text)
+                    report(ctx, c, "extract() on the reported path %s does not give the reported value" % text)
     return ok
 
 
@@ -627,7 +943,9 @@ def chain_of(locs, steps):
 
 
 def fmt_kw(cfg):
-    d = {k: v for k, v in cfg.items() if v not in ([], None)}
+    d = {k: v for k, v in cfg.items() if v not in ([], None) and k != "shape"}
+    if cfg.get("shape", "list") != "list":
+        d["<exclusion arguments given as>"] = cfg["shape"]
     return ", ".join("%s=%r" % kv for kv in sorted(d.items()))
 
 
@@ -635,10 +953,35 @@ def fmt_kw(cfg):
 # known findings
 # ---------------------------------------------------------------------------
 
+def _is_container_text(t):
+    return t[:1] in "[({" or t.startswith(("set(", "frozenset("))
+
+
+# the feature of the input without which the finding cannot show
+FEATURE = {
+    "K16": lambda o, item: bool(o.get("exclude_types")),
+    "K16b": lambda o, item: bool(o.get("exclude_paths") or o.get("exclude_regex_paths")),
+    "K16c": lambda o, item: bool(o.get("use_regexp")) and not o.get("case_sensitive") and item[:1] in "'\"b",
+    "K16e": lambda o, item: not o.get("strict_checking", True) and not o.get("case_sensitive"),
+    "K16f": lambda o, item: item == "None" or _is_container_text(item),
+    "K16g": lambda o, item: True,
+    "K16h": lambda o, item: _is_container_text(item),
+}
+
+
 def _explained(key):
+    """A failing case belongs to finding `key` when (a) the failing clause is the finding's (comparison with the reference
+    search; for K16g the extract() clause), (b) the input shows the finding's feature, (c) the observed wrong result is
+    exactly the one the finding's mechanism, replayed in the reference search, predicts (`explained_by` = smallest set of
+    defect switches under which the reference reproduces the implementation's complete result)."""
     def m(case):
         ex = case.get("explained_by") or []
-        return bool(ex) and ex[0] == key
+        if not ex or ex[0] != key:
+            return False
+        clause_extract = str(case.get("observed", "")).startswith("extract(")
+        if (key == "K16g") != clause_extract:
+            return False
+        return bool(FEATURE[key](case.get("options", {}), case.get("item", "")))
     return m
 
 
@@ -671,30 +1014,36 @@ def full_cfg(part):
 def do_case(ctx, obj, item, cfg, cases, tag):
     obj = copy.deepcopy(obj)      # (set iteration order may change in a copy: everything below uses this one object)
     locs = locations(obj)
-    before = V.canon(obj)
+    before = xstate(obj)
     res = run_impl(obj, item, kwargs_of(cfg))
-    if V.canon(obj) != before:
+    if xstate(obj) != before:
         ctx.fail(case_dict(obj, item, cfg, "object after the search: %r" % (obj,)), "DeepSearch modified the searched object")
         return
     verbose2 = cfg["verbose_level"] >= 2
-    nontrivial = res[0] != "ok" or bool(res[1]) or bool(res[2])
+    nontrivial = res[0] != "ok" or bool(res[1]) or bool(res[2]) or bool(res[4])
     ctx.seen((repr(obj), repr(item), repr(sorted(cfg.items()))), nontrivial=nontrivial)
     ctx.count("result:" + ("raise" if res[0] != "ok" else "paths+values" if res[1] and res[2] else "paths" if res[1]
                            else "values" if res[2] else "empty"))
+    if res[0] == "ok" and res[4]:
+        ctx.count("result:unprocessed_nonempty")
+    kinds = set("instance" if is_inst(v) else "named_tuple" if is_named(v) else "unreadable" if is_opaque(v) else
+                "method" if is_method(v) else None for _, v, _ in locs) - {None}
+    ctx.count("object:" + ("+".join(sorted(kinds)) or "plain"))
     mode = ("regexp" if cfg["use_regexp"] else "exact" if cfg["match_string"] else "substring") + \
            ("/cs" if cfg["case_sensitive"] else "/ci") + ("/strict" if cfg["strict_checking"] else "/loose")
     ctx.count("mode:" + mode)
     ctx.count("item:" + type(item).__name__)
     ctx.count("exclusions:" + ("+".join(k[8:] for k in ("exclude_paths", "exclude_regex_paths", "exclude_types") if cfg[k]) or "none"))
     ctx.count("verbose:%d" % cfg["verbose_level"])
+    if cfg.get("shape"):
+        ctx.count("exclusion_argument_shape:" + cfg["shape"])
+    if non_ascii_lower(obj, item):
+        ctx.count("text:non_ascii_lower" + ("/folded" if isinstance(item, str) and not cfg["case_sensitive"] else "/not_folded"))
     guard_stats(ctx, obj, item, cfg, locs)
     if ctx.evaluations % 7 == 0:      # the `obj | grep(item, **kw)` entry point gives the same result
         from deepdiff import grep
         try:
-            g = obj | grep(item, **kwargs_of(cfg))
-            gres = ("ok", [(k, (g["matched_paths"][k] if verbose2 else None)) for k in g.get("matched_paths", {})],
-                    [(k, (g["matched_values"][k] if verbose2 else None)) for k in g.get("matched_values", {})],
-                    sorted(k for k in g.keys() if k not in ("matched_paths", "matched_values")))
+            gres = run_call(lambda: obj | grep(item, **kwargs_of(cfg)))
         except TypeError:
             gres = ("raise", "TypeError")
         ctx.count("grep_operator:checked")
@@ -732,20 +1081,20 @@ HEADER = ("From DD Require Import Base.PyStr Base.Value Search.SearchModel Searc
               "; ".join(core.coq_pystr(n) for n in attr_names("")), "; ".join(core.coq_pystr(n) for n in attr_names(b""))))
 
 
-def random_cases(ctx, n):
+def random_cases(ctx, n, with_objs=False, name="search_random", tag="random"):
     rng = ctx.rng
     cases = []
     made = 0
     while made < n:
         with_bytes = rng.random() < 0.12
-        obj = gen_obj(rng, rng.choice([1, 2, 2, 3, 3, 4]), rng.choice([2, 3, 4]), with_bytes)
+        obj = gen_obj(rng, rng.choice([1, 2, 2, 3, 3, 4]), rng.choice([2, 3, 4]), with_bytes, with_objs)
+        if rng.random() < 0.4:        # one container object at two positions (succeeds for about a third of the objects)
+            obj, shared = share_x(rng, obj)
+            ctx.count("shared_subobject:" + ("yes" if shared else "no_pair"))
         locs = locations(obj)
         for _ in range(rng.choice([2, 3, 4])):
             cfg = gen_cfg(rng, locs)
             item = gen_item(rng, obj, locs, cfg["use_regexp"])
-            if not lower_ok(obj, item):
-                ctx.count("skipped:non_ascii_lower")
-                continue
             if cfg["use_regexp"] and isinstance(item, (str, bytes)):
                 try:
                     re.compile(effective_item(item, cfg))
@@ -753,11 +1102,11 @@ def random_cases(ctx, n):
                 except re.error:
                     ctx.count("skipped:invalid_regex_after_lower")
                     continue
-            do_case(ctx, obj, item, cfg, cases, "random")
+            do_case(ctx, obj, item, cfg, cases, tag)
             if made < 3:
                 ctx.sample({"obj": repr(obj), "item": repr(item), "options": fmt_kw(cfg)})
             made += 1
-    ctx.coq_cases("search_random", HEADER, cases, shard=250, label="random")
+    ctx.coq_cases(name, HEADER, cases, shard=250, label=tag)
 
 
 def universe_cases(ctx, limit):
@@ -815,6 +1164,13 @@ def witnesses(ctx):
             ([[1.0, 2], {'k': [[1, 2], (1, 2)]}, [[1, 2, 3]]], [1, 2], {}),
             ([{'a': 1}, {1, 2}, frozenset({1, 2}), {'x': {'a': 1}}], {'a': 1}, {}),
             ([{1, 2}, frozenset({1, 2}), [1, 2]], {1, 2}, {"exclude_types": ["set"]}),
+            # non-ASCII case folding (str.lower(), not casefold(): sharp s, final sigma, dotted capital I)
+            ({"Name": ["name", "Surname"], "Straße": 1, "addr": ["Straße", "x"], "ΟΔΟΣ": {"n": 2, "alt": ["ΟΔΟΣ"]}}, "Straße", {}),
+            ({"Name": ["name", "Surname"], "Straße": 1, "addr": ["Straße", "x"], "ΟΔΟΣ": {"n": 2, "alt": ["ΟΔΟΣ"]}}, "ΟΔΟΣ", {}),
+            ({"STRASSE": ["Straße", "STRAßE", "strasse"], "İb": ["i̇b", "ib", "İB"], "ſa": "SA"}, "straße", {"match_string": True}),
+            ([{"İb": "İb"}, "i̇B", {"ﬁx": ["FIX", "ﬁX"]}, ("aΣ", "aσ", "aς", "AΣ b")], "İb", {}),
+            ([{"İb": "İb"}, "i̇B", {"ﬁx": ["FIX", "ﬁX"]}, ("aΣ", "aσ", "aς", "AΣ b")], "aΣ", {}),
+            ([{"İb": "İb"}, "i̇B", {"ﬁx": ["FIX", "ﬁX"]}, ("aΣ", "aσ", "aς", "AΣ b")], "ﬁX", {"case_sensitive": True}),
             (["long somewhere", "string", 0, "somewhere great!"], "somewhere", {}),
             (["something somewhere", {"long": "somewhere", "string": 2, 0: 0, "somewhere": "around"}], "somewhere", {}),
             ({"long": "somewhere", "num": 1123456, 0: 0, "somewhere": "around"}, "1234", {"use_regexp": True, "strict_checking": False}),
@@ -825,6 +1181,44 @@ def witnesses(ctx):
             cfg = full_cfg(dict(part, verbose_level=vl))
             do_case(ctx, obj, item, cfg, cases, "doc-example")
     ctx.coq_cases("search_witness", HEADER, cases, shard=300, label="witnesses_and_doc_examples")
+
+
+def object_docs():
+    """fixed cases with class instances, named tuples and unreadable objects"""
+    docs = [
+            # class instances (__dict__, class attribute + method, __slots__), named tuples, unreadable objects
+            (A(b="x1", a=["x", 2]), "x", {}), (A(b="x1", a=["x", 2]), "a", {}), ([A(b="x1", a=["x", 2])], "A", {}),
+            (M(zz="ameth"), "meth", {}), (M(zz="ameth", cv=3), "cv", {}), (M(zz="ameth"), "cv1", {"match_string": True}),
+            (S(a=1, b="a", c=None), "a", {}), (S(a=1), "a", {}), ([S(a="a"), "a", E(x="a")], "a", {}), ({"k": S(a=1)}, "a", {}),
+            (P(1, "y"), "y", {}), ({"k": P(1, 2)}, (1, 2), {}), ([P(1, 2)], (1.0, 2), {}), ([P(1, 2), (1, 2)], [1, 2], {}),
+            ({"k": P(1, 2)}, 1, {}), ([P(1, 2), {"k": P(1, 2)}], 1, {"exclude_types": ["tuple"]}),
+            ([P(1, 2), A(a=1), B(a=1)], 1, {"exclude_types": ["A", "P"]}), ({"k": A(a=1)}, 1, {"exclude_types": ["A"]}),
+            (A(a=7), 7, {"exclude_types": ["A"]}), (A(a=1, b={"a": 1}), 1, {"exclude_paths": ["root.a"]}),
+            (A(a={"a": 1}), "A", {}), (A(a=None, b="s"), None, {}), (A(_p=1, __q=1, __d__=1), 1, {}),
+            (A(**{"we ird": 1, "1": 2}), 1, {}), (A(a=3.5, b=R("3.5", 3.5, [3.5])), "3.5", {"strict_checking": False}),
+            (P(1, "yY"), "Y", {"use_regexp": True}), ([E(a="val"), "val", S()], "val", {"exclude_regex_paths": ["\\[2\\]"]}),
+            ([R("n", A(x=P(0, S(a=1))), M())], "x", {}), (A(ſa="Ss", İb=["i̇B"]), "ſA", {}), (A(ſa="Ss", İb=["i̇b"]), "İB", {})]
+    return docs
+
+
+def only_named(obj):
+    return not any(is_inst(v) or is_opaque(v) or is_method(v) for _, v, _ in locations(obj))
+
+
+def object_examples(ctx):
+    cases = []
+    for obj, item, part in [d for d in object_docs() if not only_named(d[0])]:
+        for vl in (1, 2):
+            do_case(ctx, obj, item, full_cfg(dict(part, verbose_level=vl)), cases, "object-example")
+    ctx.coq_cases("search_object_examples", HEADER, cases, shard=300, label="object_examples")
+
+
+def named_examples(ctx):
+    cases = []
+    for obj, item, part in [d for d in object_docs() if only_named(d[0])]:
+        for vl in (1, 2):
+            do_case(ctx, obj, item, full_cfg(dict(part, verbose_level=vl)), cases, "namedtuple-example")
+    ctx.coq_cases("search_named_examples", HEADER, cases, shard=300, label="namedtuple_examples")
 
 
 def variant(rng, obj, with_bytes):
@@ -876,7 +1270,7 @@ def grep_sequence(ctx, objs, item, cfg, cases, tag):
                  "grep modified the option values it was given")
 
 
-def grep_reuse(ctx, n):
+def grep_reuse(ctx, n, with_objs=False):
     """The grep front end: ONE grep(item, **options) instance (options biased towards exclusions), used with |
     two or three times on the same and on different objects."""
     rng = ctx.rng
@@ -884,12 +1278,15 @@ def grep_reuse(ctx, n):
     fixed = [([{'a': 1, 'b': "somewhere"}, {'c': 4, 'b': "somewhere"}], "somewhere", {"exclude_paths": ["root[0]['b']"]}),
              ({'k': ['x1', 'x2'], 'x': 'x'}, 'x', {"exclude_regex_paths": ["\\[1\\]"], "exclude_paths": ["root['x']"]}),
              ([1.5, 'x1.5', [1.5]], '1.5', {"exclude_types": ["float"], "strict_checking": False})]
+    if with_objs:
+        fixed = [([A(a=1, b="somewhere"), S(a="somewhere")], "somewhere", {"exclude_paths": ["root[0].b"]}),
+                 (A(k=P('x1', 'x2'), x='x'), 'x', {"exclude_regex_paths": ["\\.y$"], "exclude_types": ["B"]})]
     for obj, item, part in fixed:
         grep_sequence(ctx, [obj, obj, copy.deepcopy(obj)], item, full_cfg(part), cases, "grep-fixed")
     made = 0
     while made < n:
         with_bytes = rng.random() < 0.08
-        obj = gen_obj(rng, rng.choice([2, 2, 3]), rng.choice([2, 3, 4]), with_bytes)
+        obj = gen_obj(rng, rng.choice([2, 2, 3]), rng.choice([2, 3, 4]), with_bytes, with_objs)
         locs = locations(obj)
         cfg = gen_cfg(rng, locs)
         texts = [path_text(s) for s, _, _ in locs]
@@ -899,8 +1296,6 @@ def grep_reuse(ctx, n):
             cfg["exclude_regex_paths"] = [rng.choice(EXCL_RX)]
         item = gen_item(rng, obj, locs, cfg["use_regexp"])
         objs = [obj, variant(rng, obj, with_bytes), obj][:rng.choice([2, 3, 3])]
-        if not all(lower_ok(o, item) for o in objs):
-            continue
         if cfg["use_regexp"] and isinstance(item, (str, bytes)):
             try:
                 re.compile(effective_item(item, cfg))
@@ -908,18 +1303,28 @@ def grep_reuse(ctx, n):
                 continue
         grep_sequence(ctx, objs, item, cfg, cases, "grep-random")
         made += 1
-    ctx.coq_cases("search_grep", HEADER, cases, shard=250, label="grep_instance_reuse")
+    ctx.coq_cases("search_grep" + ("_objects" if with_objs else ""), HEADER, cases, shard=250, label="grep_instance_reuse")
 
 
 def run(ctx):
     witnesses(ctx)
     grep_reuse(ctx, 1500 if ctx.thorough else 250)
-    random_cases(ctx, 12000 if ctx.thorough else 3200)
+    random_cases(ctx, 12000 if ctx.thorough else 2300)
+    # named tuples are tuples (the property's quantifier names tuples): part of the property's own streams
+    random_cases(ctx, 2500 if ctx.thorough else 400, with_objs="named", name="search_named", tag="random-namedtuples")
+    named_examples(ctx)
     universe_cases(ctx, 12000 if ctx.thorough else 600)
+    # extension: class instances / named tuples / unreadable objects (`unprocessed`) inside the same model and theorems.
+    # The property's quantifier speaks about dict / list / tuple / str / numbers / None only: what fails here is
+    # recorded in the evidence file (EXTENSION-NOTE), never a violation (core.Ctx.extension)
+    with ctx.extension("Obj"):
+        object_examples(ctx)
+        random_cases(ctx, 6000 if ctx.thorough else 1000, with_objs=True, name="search_objects", tag="random-objects")
+        grep_reuse(ctx, 300 if ctx.thorough else 60, with_objs=True)
 
 
 def _eval(text):
-    return eval(text, {"__builtins__": {}}, {"frozenset": frozenset, "set": set})
+    return eval(text, {"__builtins__": {}}, dict({"frozenset": frozenset, "set": set}, **CLASSES, **NAMED))
 
 
 def replay(ctx, data):
@@ -933,6 +1338,8 @@ def replay(ctx, data):
     if "obj" not in case:
         return run(ctx)
     obj, item, cfg = _eval(case["obj"]), _eval(case["item"]), full_cfg(case["options"])
+    if "pickle" in case:
+        obj = pickle.loads(base64.b64decode(case["pickle"]))
     cases = []
     if case.get("grep_sequence"):
         objs = [_eval(t) for t in case["grep_sequence"]]
